@@ -52,6 +52,10 @@ func (pe *shellVariablesEncoder) doEncode(w *io.Writer, node *CandidateNode, pat
 			// let's just pick a fallback key to use if we are encoding a single scalar
 			nonemptyPath = "value"
 		}
+		if strings.ContainsRune(node.Value, 0) {
+			// no shell variable can hold a NUL: shells cut the value there or drop the byte
+			return fmt.Errorf("cannot encode %v for a shell: the value contains a NUL character", nonemptyPath)
+		}
 		_, err := io.WriteString(*w, nonemptyPath+"="+quoteValue(node.Value)+"\n")
 		return err
 	case SequenceNode:
